@@ -248,11 +248,12 @@ Proof.
   - destruct (lookup_owner (table s) owner); [|apply quiet_refl].
     destruct (t_verdict (tasks s owner)); [apply quiet_refl|].
     apply quiet_set_task_samepc. reflexivity.
-  - destruct (lookup_owner (table s) owner); [|apply quiet_refl].
+  - destruct (lookup_owner (rtable s) owner); [|apply quiet_refl].
     apply quiet_set_task_samepc. reflexivity.
-  - destruct (lookup_owner (table s) owner); [|apply quiet_refl].
-    apply quiet_trans with (set_task s owner (with_rq (tasks s owner) (t_rq (tasks s owner)) true)).
-    + apply quiet_set_task_samepc; reflexivity.
+  - destruct (lookup_owner (rtable s) owner).
+    + apply quiet_trans with (set_task s owner (with_rq (tasks s owner) (t_rq (tasks s owner)) true)).
+      * apply quiet_set_task_samepc; reflexivity.
+      * unfold quiet. split; [reflexivity | split; [reflexivity | intros t'; reflexivity]].
     + unfold quiet. split; [reflexivity | split; [reflexivity | intros t'; reflexivity]].
 Qed.
 
@@ -607,7 +608,7 @@ Proof.
     set (s1 := wake_pump_closed s).
     assert (Inv s1) as HI1 by (eapply inv_pump_effect; [exact HI | apply pump_effect_wake]).
     assert (neutral (pcof s1 t) = true) as N1 by (eapply neutral_after_pump_effect; [apply pump_effect_wake | exact N]).
-    eapply inv_qp with (s := s1) (s1 := set_table (set_tasks s1 (drain (table s1) (tasks s1))) (next_sid s1) []);
+    eapply inv_qp with (s := s1) (s1 := drain_state s1);
       [exact HI1 | | apply pcu_set_pc | exact N1 | reflexivity].
     unfold quiet. split; [reflexivity | split; [reflexivity|]]. intros t'. unfold pcof. cbn. apply drain_pc.
   - (* PC2 *)
@@ -619,8 +620,14 @@ Proof.
   - (* PO0 *)
     assert (neutral (pcof s t) = true) as N by (unfold pcof; rewrite Epc; reflexivity).
     inversion H; subst.
-    apply inv_qp with (s := s) (s1 := set_table s (next_sid s + 1) (table s ++ [(next_sid s, t)])) (t := t)
-                      (p := PO1 (next_sid s)); auto.
+    apply inv_qp with (s := s) (s1 := set_rtable s (next_sid s + 1) (rtable s ++ [(next_sid s, t)])) (t := t)
+                      (p := PO0b (next_sid s)); auto.
+    + quiet_refl_like.
+    + apply pcu_set_task.
+  - (* PO0b *)
+    assert (neutral (pcof s t) = true) as N by (unfold pcof; rewrite Epc; reflexivity).
+    inversion H; subst.
+    apply inv_qp with (s := s) (s1 := set_table s (next_sid s) (table s ++ [(sid, t)])) (t := t) (p := PO1 sid); auto.
     + quiet_refl_like.
     + apply pcu_set_task.
   - (* PO1 *)
